@@ -188,6 +188,12 @@ def run_property(pid, tier="quick", seed=0, jobs=None):
             witness = witness_cache["w"]
             if witness:
                 reproduced = True
+        if not reproduced and all(x.get("auto_slots") for x in inst):
+            # the proof failed in a context where the contract says nothing about a loop-carried local the code
+            # introduced: without a failing input this is "needs contract", not a violation
+            errors.append(f"{k}: not established; the loop contract does not constrain the loop-carried local(s) "
+                          f"{sorted(set(a for x in inst for a in x['auto_slots']))} and no failing input was found")
+            continue
         path = os.path.join("replay", f"{pid}-{n}.json")
         with open(os.path.join(VERIF, path), "w") as f:
             json.dump(dict(property=pid, obligation=k, unit=o["unit"], verdict="refuted by " + o["backend"],
